@@ -9,9 +9,9 @@ W=$(mktemp -d /tmp/confirm.XXXXXX)
 git -C /repo worktree add --detach "$W" HEAD -q || exit 3
 cd "$W"
 FF=""; [ -n "$FEAT" ] && { if [ "$FEAT" = all ]; then FF="--all-features"; else FF="--features $FEAT"; fi; }
-export CARGO_TARGET_DIR="$W/target"
+export CARGO_TARGET_DIR="${CONFIRM_TARGET:-$W/target}"
 res() { echo "{\"seed\":\"$SD\",\"applies\":$1,\"build_default\":$2,\"build_all\":$3,\"suite_with_patch\":$4,\"demo_without\":$5,\"demo_with\":$6}"; }
-mkdir -p tests; cp "$SD/demo.rs" tests/demo.rs
+mkdir -p target tests; cp "$SD/demo.rs" tests/demo.rs
 # demo on the unmodified tree
 cargo test --offline $FF --test demo >"$W/demo0.log" 2>&1; D0=$?
 git apply "$SD/patch.diff" 2>"$W/apply.log"; AP=$?
